@@ -468,6 +468,15 @@ func check(in input, res *hx.Result, count, wantCoq bool) ([]failure, []*stepObs
 				if count {
 					res.OracleChecks++
 				}
+				// the SNI oracle on the running process: the content it holds for the name is
+				// the content of the secret the winning declaration names
+				if e := v.expect(n); !bad[n] && e.SecretKey != "" && len(e.Allowed) == 0 && !e.Passthrough {
+					if want, ok := v.runningContent(e.SecretKey); ok && o.Running[n] != want {
+						add(failure{key: "C15/running-serves-wrong-certificate", step: i,
+							what:     fmt.Sprintf("step %d: the running haproxy serves %s with certificate content %s, the secret %s its declaration names holds %s (reloads asked: %d, commands: %v)", i, n, o.Running[n], e.SecretKey, want, o.Reloads, o.Cmds),
+							observed: map[string]interface{}{"running": o.Running[n], "files": o.Loaded[n], "cmds": o.Cmds}, expected: e})
+					}
+				}
 				if o.Running[n] != o.Loaded[n] {
 					add(failure{key: "C15/running-certificate-stale", step: i,
 						what:     fmt.Sprintf("step %d: the running haproxy serves %s with content %s but the files written say %s (reloads asked: %d, commands: %v)", i, n, o.Running[n], o.Loaded[n], o.Reloads, o.Cmds),
@@ -604,7 +613,7 @@ func main() {
 			jobs = append(jobs, job{in: in, corr: !o.Search})
 		}
 		for i := 0; i < nSock; i++ {
-			jobs = append(jobs, job{in: input{History: genHistory(rng, genCfg{foreign: true}, 1+rng.Intn(4)), Socket: true}, corr: !o.Search})
+			jobs = append(jobs, job{in: input{History: genHistory(rng, genCfg{foreign: true, replicated: i%2 == 0}, 1+rng.Intn(4)), Socket: true}, corr: !o.Search})
 		}
 	}
 
